@@ -189,7 +189,7 @@ Section Run.
   Lemma norm_target_rel lw ll : lnk_rel lw ll -> norm_target Windows lw = norm_target Linux ll.
   Proof.
     intros (Hok & [((r & Er) & ->)|(Hrel & ->)]); unfold norm_target.
-    - rewrite (vnl_W d Hd). change (skipn 2 (W ll)) with (map phi ll). rewrite (to_slash_mp Hok). reflexivity.
+    - rewrite (vnl_W d). change (skipn 2 (W ll)) with (map phi ll). rewrite (to_slash_mp Hok). reflexivity.
     - rewrite (vnl_rel Hok Hrel). cbn [skipn]. rewrite (to_slash_mp Hok). reflexivity.
   Qed.
 
@@ -218,7 +218,7 @@ Proof.
   pose proof (Forall2_nth vi Vs) as Hn.
   destruct (nth_error (w_views ww) vi) as [vw|]; destruct (nth_error (w_views wl) vi) as [vl|]; try contradiction; [|reflexivity].
   destruct Hn as (V & HR). rewrite (vr_osw V), (vr_osl V), <- vol_C, (fr_vol F), HR.
-  apply (nsnap_rel DRIVE_C_letter (fr_heap F)).
+  exact (@nsnap_rel DRIVE_C _ _ (fr_heap F) _ _ _).
 Qed.
 
 (* system directories given as portable paths *)
@@ -240,9 +240,9 @@ Proof.
   destruct (sr_child (search_node sl vl p SlEval)) as [c|]; [|exact F].
   destruct (negb (is_file_exists (sr_err (search_node sl vl p SlEval)))); [exact F|].
   destruct (get (f_heap sl) c) as [n|] eqn:El; [|exact F].
-  assert (Hgoal : frel DRIVE_C 0 sw (with_heap sl (upd (f_heap sl) c (set_meta n (with_mode (node_meta n) mode))))).
-  { destruct F as [FH FI FV]. constructor; cbn [with_heap f_heap f_last_id f_vols]; auto. apply hrel_meta_right; assumption. }
-  destruct n; try exact F; cbn [fst]; destruct (set_mode_ok _ _); try exact F; exact Hgoal.
+  assert (Hgoal : forall m', frel DRIVE_C 0 sw (with_heap sl (upd (f_heap sl) c (set_meta n m')))).
+  { intros m'. destruct F as [FH FI FV]. constructor; cbn [with_heap f_heap f_last_id f_vols]; auto. apply hrel_meta_right; assumption. }
+  destruct n; try exact F; cbn [fst]; destruct (set_mode_ok _ _); try exact F; apply Hgoal.
 Qed.
 
 Lemma init_views_rel um : vrelR 0 (init_view Windows um) (init_view Linux um).
